@@ -12,7 +12,8 @@ T_TS == SmallT({1, 2, 3}, 3) \cup CanonT
 Q_MS == SmallM({2}) \cup CanonM
 T_MS == SmallM({1, 2, 3}) \cup CanonM
 MC_SC == {}
-MC_OPS == {"save_load", "clone_c", "detach", "to_dtype", "cpu", "numpy"}
+\* to_dtype: to(dtype=t); to_both: to(device=cpu, dtype=t); to_pos: to('cpu', t); to_device: to('cpu'); to_none: to()
+MC_OPS == {"save_load", "clone_c", "detach", "to_dtype", "to_both", "to_pos", "to_device", "to_none", "cpu", "numpy"}
 MC_BATCH == {}
 MC_ITEMS(n, d) == {}
 MC_WIDTHS == {}
